@@ -384,6 +384,10 @@ fn random_case(u: &mut Choices, sz: Size) -> CaseResult {
     for i in 0..k {
         let mut f = gen_wide_file(u, &doc, sz, true);
         prefix_names(&mut f, &format!("f{}", i));
+        // a third of the files carry messages that span two lines: the report must carry them unaltered
+        if u.chance(1, 3) {
+            crate::ast::suffix_messages(&mut f, "\nsecond line");
+        }
         names.extend(f.rules.iter().map(|r| r.name.clone()));
         files.push(print_file(&f));
         asts.push(f);
